@@ -7,6 +7,8 @@ RULE = ("every partial formula and both full algorithms through the int128_t ins
         "through increments; distinct = distinct (term, x, parameters)")
 TRUSTED = ["as C08 (defining sums) ; branches that need an intermediate quotient >= 2^64 naturally (x > 1e22) are not executable here"]
 ASSUMPTIONS = ["x < 2^63 for the equivalence"]
+# wp-s1phi0: PcProps/C11Leaf.lean (S1 / Phi0 / Sigma / S2_trivial: the int64_t and int128_t instantiations agree)
+EXTRA_MODULES = ["C11Leaf"]
 
 
 def streams(ctx):
@@ -60,4 +62,5 @@ def streams(ctx):
         sts.append(Stream("continuation_2^63", ops3, oracle=True, judge=judge3,
                           model_ops=lambda ops, impl: ["# " + o for o in ops], timeout=7200,
                           env={"PCV_OP_TIMEOUT": "3000"}))
-    return sts
+    from . import c08leaf
+    return sts + c08leaf.c11_streams(ctx)
